@@ -34,13 +34,10 @@ Definition ex_map {T U} (f : T -> U) (x : Exact T) : Exact U := mkEx (f (exv x))
 (* usize = u64 on the platforms the check runs on *)
 Definition usize_limit : N := 2 ^ 64.
 
-(* BigRat::try_as_usize (bigrat.rs:152) on the stored numerator N and
-   denominator D: simplify (no-op when D = 1), then BigUint::try_as_usize,
-   which rejects every Large value with more than one limb WITHOUT trimming
-   leading zero limbs (biguint.rs:107).  BigUint::divmod returns a canonical
-   quotient except on its shift path for a divisor 2 (biguint.rs:345), where
-   the quotient keeps the limb count of the dividend: so a numerator
-   N >= 2^64 divided by gcd 2 is rejected even when N/2 < 2^64.           *)
+(* BigRat::try_as_usize (bigrat.rs:152): reject a negative number, simplify
+   (divide by the gcd; a no-op when the denominator is 1), reject a fraction,
+   then BigUint::try_as_usize, which since the fix commit 2c2d128 counts
+   significant limbs, i.e. accepts exactly the values below 2^64.           *)
 Definition rat_try_as_usize (q : Q) : option N :=
   if (Qnum q <? 0)%Z then None
   else
@@ -50,7 +47,6 @@ Definition rat_try_as_usize (q : Q) : option N :=
     else
       let g := N.gcd n d in
       if negb (d / g =? 1) then None
-      else if (g =? 2) && (usize_limit <=? n) then None
       else let n' := n / g in
            if n' <? usize_limit then Some n' else None.
 
@@ -251,8 +247,7 @@ Definition real_is_zero (r : real) : bool :=
   match r with RSimple q | RPi q => (Qnum q =? 0)%Z end.
 
 (* BigRat::add_internal (bigrat.rs:385): same denominator -> add the
-   numerators; otherwise over the least common multiple.  Value a + b; the
-   stored numerator matters to try_as_usize (see above). *)
+   numerators; otherwise over the least common multiple.  Value a + b. *)
 Definition rat_add (a b : Q) : Q :=
   let da := Zpos (Qden a) in
   let db := Zpos (Qden b) in
@@ -366,9 +361,8 @@ Definition known_into_f64_overflow (q : Q) : bool :=
   let r := Qred q in
   (1024 <? N.size (q_num_abs r)) || (1024 <? N.size (q_den r)).
 
-(* a multiple of pi/6 that Real::sin does not look up because 6n fails
-   try_as_usize although it is a natural number (too big, or the two-limb
-   representation quirk) *)
+(* a multiple of pi/6 that Real::sin does not look up because 6n, although a
+   natural number, fails try_as_usize (it does not fit usize) *)
 Definition known_big_pi_multiple (n : Q) : bool :=
   let a := if qlt n 0 then Qopp n else n in
   let r := Qred (a * 6)%Q in
